@@ -23,6 +23,16 @@ TREES = [
 VIS = ["", "pub ", "pub(crate) ", "pub(super) ", "pub(in crate::m) ", "pub(in crate::m::n) ",
        "pub(in super::super) "]
 ATTR = ["", "#[cfg(unix)]\n", "#[allow(unused)]\n"]
+# elements whose path does not fit in the width that remains inside the braces
+LP = "generated_bindings_for_the_platform::protocol_buffers_v3"
+LONG_TREES = [
+    f"crate::{{alpha::Thing, {LP}::Message, zeta}}",
+    f"a::{{b, {LP}::{{Message, Other}}, c}}",
+    f"a::{{b::{{c, {LP}::deeper_module_name::Deep}}, d}}",
+    f"{LP}::{{Message, another_quite_long_module_name::AnotherQuiteLongTypeName}}",
+    f"a::{{{LP}::Message as Msg, b}}",
+    f"a::{{b, {LP}::*}}",
+]
 GRAN = ["Preserve", "Item", "Module", "Crate", "One"]
 GROUP = ["Preserve", "StdExternalCrate", "One"]
 
@@ -198,6 +208,18 @@ def run(tier, seed, replay=None):
                 jobs.append({"id": len(jobs), "src": render(lst), "opts": oo,
                              "want": ["uses", "out"]})
                 meta.append((i, oo))
+    # long-path elements at widths where they cannot be laid out (both tiers)
+    for t in LONG_TREES:
+        for attr in ATTR[:2]:
+            lists.append([(attr, "", t), ("", "", "a::q")])
+            for g in GRAN:
+                for w in (40, 60, 100):
+                    oo = {"imports_granularity": g, "group_imports": "Preserve",
+                          "reorder_imports": True, "edition": "2018",
+                          "style_edition": "2024" if w == 60 else "2015", "max_width": w}
+                    jobs.append({"id": len(jobs), "src": render(lists[-1]), "opts": oo,
+                                 "want": ["uses", "out"]})
+                    meta.append((len(lists) - 1, oo))
     n_ut = ut_agree = 0
     ut_drift = []
     with Scratch("c10") as sc:
